@@ -20,6 +20,7 @@ let sreq n = if Int64.unsigned_compare (i64_of_n n) 1000000L >= 0 then "T" else 
 let lock_desc s r =
   match aget s.store r with
   | None -> "freed"
+  | Some l when l.l_timeouted && l.l_expried -> Printf.sprintf "dead:%s" (sn l.l_refc)
   | Some l ->
     Printf.sprintf "%s:%s:%s:%d:%d:%s:%s:%s:%s" (sn l.l_cmd.c_lockid) (sn l.l_locked) (sn l.l_refc)
       (b2i l.l_timeouted) (b2i l.l_expried) (sz l.l_eT) (sz l.l_tT) (sreq l.l_cmd.c_req) (sn l.l_conn)
@@ -108,6 +109,7 @@ let () =
             | CDropped (o, r) -> Printf.printf "# dropped origin=%s req=%s res=%s\n" (sn o) (sreq r.rp_req) (sn r.rp_res)
             | CSwallowed (c, r) -> Printf.printf "# swallowed conn=%s req=%s res=%s\n" (sn c) (sreq r.rp_req) (sn r.rp_res)
             | CEngine (c, w, cm) -> Printf.printf "# engine conn=%s will=%d req=%s\n" (sn c) (b2i w) (sreq cm.c_req)
+            | CRegistered (c, cm) -> Printf.printf "# registered conn=%s req=%s\n" (sn c) (sreq cm.c_req)
             | CRequeued (c, cm) -> Printf.printf "# requeued conn=%s req=%s\n" (sn c) (sreq cm.c_req)
             | CBlocked c -> Printf.printf "# blocked conn=%s\n" (sn c)
             | CLoopFuel -> print_endline "# loopfuel"
